@@ -81,6 +81,7 @@ def run(F, R, ctx):
     filter_reset_rule(F, R)
     R.note("C14: decided are the cache-consultation, registration and rollback clauses only; which names a module graph "
            "exposes (provide / only-in / prefix-in / mangling) is not decided.")
+    snapshot_rule(F, R)
 
 
 def pruning_rule(F, R):
@@ -372,3 +373,38 @@ def filter_reset_rule(F, R):
                    "same module is processed" % (fn.short(), fn.blocks[leak[0]].get("line") if leak else fn.blocks[fills[0]].get("line")),
                    fn.loc(fn.blocks[(leak or fills)[0]].get("line")), sample=True)
     R.floor("C14.g", "loops over require objects that fill an only-in filter", n, 2)
+
+
+def snapshot_rule(F, R):
+    R.rule("C14.r", "a snapshot that a failed evaluation restores is taken by every evaluation: for every restore routine of "
+                    "ModuleManager (a method that overwrites one field with a copy of another: live table <- snapshot field), each "
+                    "other function that writes the snapshot field does so on every path from its entry to its return. A snapshot "
+                    "skipped on some path (\"nothing will change\") leaves an older one in place, and the next restore — which is "
+                    "unconditional — winds the module tables back past modules that were loaded since: they are compiled and "
+                    "their bodies evaluated a second time")
+    pairs = []
+    for n, fn in F.fns.items():
+        if "{impl ModuleManager}::" not in n or fn.d["kind"] == "Closure":
+            continue
+        w = {e[2] for _, _, e in fn.events("fld") if e[1] == "ModuleManager" and e[3][0] == "w"}
+        r = {e[2] for _, _, e in fn.events("fld") if e[1] == "ModuleManager" and e[3][0] in "rb"} - w
+        calls = [b["callee"] for _, b in fn.calls()]
+        if len(w) == 1 and len(r) == 1 and len(fn.blocks) <= 6 and all(re.search(r"::clone$|::deref", c) for c in calls):
+            pairs.append((fn, next(iter(r)), next(iter(w))))
+    R.floor("C14.r", "restore routines of ModuleManager (live table <- snapshot)", len(pairs), 1)
+    n = 0
+    for rfn, snap, live in pairs:
+        for name, fn in sorted(F.fns.items()):
+            if fn is rfn or not name.startswith("steel::") or fn.d["kind"] == "Closure":
+                continue
+            ws = [i for i, _, e in fn.events("fld") if e[1] == "ModuleManager" and e[2] == snap and e[3][0] == "w"]
+            if not ws:
+                continue
+            n += 1
+            ok, wit = fn.every_path_passes(0, fn.returns(), ws) if 0 not in ws else (True, None)
+            R.inst("C14.r", "%s takes the snapshot ModuleManager.%s on every path" % (fn.short(), snap), ok,
+                   "%s writes the snapshot ModuleManager.%s (restored into .%s by %s) only on some paths: an evaluation that skips "
+                   "it and is then rejected is rolled back to the snapshot of an earlier evaluation — modules loaded in between "
+                   "lose their metadata entry while they are still in the module table, and the next require of one compiles and "
+                   "evaluates it again in the same engine" % (fn.short(), snap, live, rfn.short()), fn.loc(), sample=True)
+    R.floor("C14.r", "snapshot sites", n, 1)
